@@ -36,6 +36,7 @@ func runC15(c *eng.Ctx) {
 	p := c.P
 	entryCutByTheOffsetsTable(c)
 	mergedIteratorAlwaysLatches(c)
+	findFilesReturnsItsOwnSlice(c)
 	everyScanHasItsOwnIterator(c)
 	onlyCommitAddsAKey(c)
 
